@@ -78,8 +78,79 @@ func emitConstTables() {
 	}
 }
 
+// The float-derived inputs of Halley's iteration in Context.Ln (context.go): the initial estimate
+// SetFloat64(math.Log(z.Float64())) of the rescaled operand and, for every Exp inside the loop, the two integers that
+// Exp derives from floats.  The iterates are recomputed here with the exported operations, in the order of context.go
+// (untrapped: a trap stops the real computation earlier but does not change the values).
+func lnFloatInputs(c apd.Context, x *apd.Decimal) string {
+	if x.Form != apd.Finite || x.Coeff.Sign() <= 0 || x.Negative {
+		return "F:0:0:0"
+	}
+	p := c.Precision + 2
+	nc := c.WithPrecision(p)
+	nc.Rounding = apd.RoundHalfEven
+	nc.Traps = 0
+	var tmp1, tmp2, tmp3, tmp4, z apd.Decimal
+	z.Set(x)
+	expDelta := int32(z.NumDigits()) + z.Exponent
+	z.Exponent -= expDelta
+	zf, err := z.Float64()
+	if err != nil {
+		return "F:0:0:0"
+	}
+	if _, err := tmp1.SetFloat64(math.Log(zf)); err != nil {
+		return "F:0:0:0"
+	}
+	var b strings.Builder
+	b.WriteString(encDec(&tmp1))
+	ed := apd.MakeErrDecimal(nc)
+	var prevZ, delta, eps apd.Decimal
+	lprec := int32(c.Precision + 1)
+	maxIt := 10 + int(c.Precision+1)
+	it := 0
+	for k := 0; k < 80; k++ {
+		cp, n := expFloatInputs(nc, &tmp1)
+		fmt.Fprintf(&b, " %d %d", cp, n)
+		ed.Exp(&tmp2, &tmp1)
+		ed.Sub(&tmp3, &tmp2, &z)
+		ed.Add(&tmp3, &tmp3, &tmp3)
+		ed.Add(&tmp4, &tmp2, &z)
+		ed.Quo(&tmp2, &tmp3, &tmp4)
+		ed.Sub(&tmp1, &tmp1, &tmp2)
+		if ed.Err() != nil {
+			break
+		}
+		if _, err := nc.Sub(&delta, &prevZ, &tmp1); err != nil {
+			break
+		}
+		sg := delta.Sign()
+		if sg == 0 {
+			break
+		}
+		if sg < 0 {
+			delta.Neg(&delta)
+		}
+		eps.SetFinite(1, -lprec+int32(tmp1.NumDigits())+tmp1.Exponent)
+		if delta.Cmp(&eps) <= 0 {
+			break
+		}
+		it++
+		if it == maxIt {
+			break
+		}
+		prevZ.Set(&tmp1)
+	}
+	return b.String()
+}
+
 func runLnModel(op string, ctx apd.Context, x0 *apd.Decimal) string {
-	return guard(fmt.Sprintf("lm %s %s %s", op, encCtx(&ctx), encDec(x0)), func() string {
+	inner := ctx
+	if op == "Log10" {
+		// Log10 calls Ln in BaseContext at two more digits
+		inner = *apd.BaseContext.WithPrecision(ctx.Precision + 2)
+		inner.Rounding = apd.RoundHalfEven
+	}
+	return guard(fmt.Sprintf("lm %s %s %s %s", op, encCtx(&ctx), encDec(x0), lnFloatInputs(inner, x0)), func() string {
 		c := ctx
 		x := clone(x0)
 		d := new(apd.Decimal)
@@ -97,7 +168,89 @@ func runLnModel(op string, ctx apd.Context, x0 *apd.Decimal) string {
 	})
 }
 
+// The float-derived inputs of Context.Pow with a fractional exponent: those of Ln(|x|) in the working context
+// BaseContext.WithPrecision(max(Precision, digits x) + 10) and those of the Exp of frac(y) * ln|x|.
+func powFloatInputs(c *apd.Context, x, y *apd.Decimal) (int64, int64, string) {
+	none := "F:0:0:0"
+	if x.Form != apd.Finite || y.Form != apd.Finite || x.Coeff.Sign() == 0 {
+		return 0, -1, none
+	}
+	var integ, frac apd.Decimal
+	y.Modf(&integ, &frac)
+	if frac.IsZero() || x.Negative {
+		return 0, -1, none
+	}
+	p := c.Precision
+	if nd := uint32(x.NumDigits()); p < nd {
+		p = nd
+	}
+	p += 10
+	nc := apd.BaseContext.WithPrecision(p)
+	var tmp apd.Decimal
+	if _, err := nc.Abs(&tmp, x); err != nil {
+		return 0, -1, none
+	}
+	lnIn := lnFloatInputs(*nc, &tmp)
+	if _, err := nc.Ln(&tmp, &tmp); err != nil {
+		return 0, -1, lnIn
+	}
+	if _, err := nc.Mul(&tmp, &tmp, &frac); err != nil {
+		return 0, -1, lnIn
+	}
+	cp, n := expFloatInputs(nc, &tmp)
+	return cp, n, lnIn
+}
+
+func runPowModel(ctx apd.Context, x0, y0 *apd.Decimal) string {
+	cp, n, lnIn := powFloatInputs(&ctx, x0, y0)
+	return guard(fmt.Sprintf("pm %s %s %s %d %d %s", encCtx(&ctx), encDec(x0), encDec(y0), cp, n, lnIn), func() string {
+		c := ctx
+		x, y := clone(x0), clone(y0)
+		d := new(apd.Decimal)
+		res, err := c.Pow(d, x, y)
+		if encDec(x) != encDec(x0) || encDec(y) != encDec(y0) {
+			return "OPERAND-MODIFIED"
+		}
+		return fmt.Sprintf("%s %d %s", encDec(d), uint32(res), encErr(err))
+	})
+}
+
 func init() {
+	// Stream "powm": Context.Pow against its model (Model/Pow.v).
+	//   pm <ctx 5 fields> <x> <y> <cp> <n> <a0> <cp1> <n1> ... => <d> <condition> <error>
+	streams["powm"] = func(r *rng, n int) {
+		emitConstTables()
+		for i := 0; i < n; i++ {
+			ctx := r.genCtx(true)
+			if ctx.Precision > 30 {
+				ctx.Precision = uint32(r.rangeI(1, 30))
+			}
+			var x, y *apd.Decimal
+			for try := 0; ; try++ {
+				if r.coin(12) {
+					x, y = r.genDec(&ctx, 40), r.genDec(&ctx, 40)
+				} else {
+					x, y = r.powOperands(&ctx)
+				}
+				// keep the model affordable: moderate exponents of x and y, inner Exp at a working precision below 120
+				if x.Form == apd.Finite && (x.Exponent > 400 || x.Exponent < -400 || x.NumDigits() > 120) {
+					continue
+				}
+				if y.Form == apd.Finite && (y.Exponent > 12 || y.Exponent < -60 || y.NumDigits() > 60) {
+					continue
+				}
+				if cp, _, _ := powFloatInputs(&ctx, x, y); cp <= 120 || try > 20 {
+					break
+				}
+			}
+			emit(runPowModel(ctx, x, y))
+		}
+	}
+	replayers["pm"] = func(f []string) {
+		emitConstTables()
+		c := parseArith([]string{"ar", "Pow", f[1], f[2], f[3], f[4], f[5], f[6], f[7], "0", "n", "F:0:0:0"})
+		emit(runPowModel(c.Ctx, c.X, c.Y))
+	}
 	streams["expm"] = func(r *rng, n int) {
 		for i := 0; i < n; i++ {
 			ctx := r.genCtx(true)
@@ -131,8 +284,8 @@ func init() {
 		}
 	}
 	// Stream "lnm": Ln and Log10 against the model of the power-series path (Model/Ln.v); operands mostly within 0.2 of
-	// one, or with a mantissa in [0.8, 1), so that the series is taken; the rest goes through Halley's iteration,
-	// which the model does not cover (the driver counts those cases separately).
+	// one, or with a mantissa in [0.8, 1), so that the series is taken; the rest goes through Halley's iteration
+	// (Model/LnHalley.v), whose float-derived inputs are recomputed by lnFloatInputs.
 	//   lm <Ln|Log10> <ctx 5 fields> <x> => <d> <condition> <error>
 	streams["lnm"] = func(r *rng, n int) {
 		emitConstTables()
@@ -156,7 +309,7 @@ func init() {
 				delta := mkDec(apd.Finite, r.coin(50), m, -k-len(m.String())+r.rangeI(0, 1))
 				x = new(apd.Decimal)
 				apd.BaseContext.Add(x, apd.New(1, 0), delta)
-			case 4, 5, 6: // mantissa in [0.79, 1.0) times a power of ten
+			case 4, 5: // mantissa in [0.79, 1.0) times a power of ten
 				nd := r.rangeI(1, p+6)
 				m := r.randDigits(nd)
 				lead := new(big.Int).Mul(big.NewInt(int64(r.rangeI(79, 99))), pow10(nd))
